@@ -175,7 +175,59 @@ func checkC12(c c12Case) (c12Verdict, bool, error) {
 	return c12Checked, wild, nil
 }
 
+// c12Neighbours returns calls whose arguments would collide with c's under
+// a careless cache key (the patterns joined by some separator, or split at
+// one): run directly before and after c they show state that leaks from one
+// call into the next.
+func c12Neighbours(c c12Case) []c12Case {
+	var out []c12Case
+	if len(c.Patterns) > 1 {
+		for _, sep := range []string{"\x00", "|", " ", ","} {
+			out = append(out, c12Case{Patterns: []string{strings.Join(c.Patterns, sep)}, Mode: c.Mode, Subject: c.Subject})
+		}
+		out = append(out, c12Case{Patterns: []string{fmt.Sprint(c.Patterns)}, Mode: c.Mode, Subject: c.Subject})
+	} else if len(c.Patterns) == 1 {
+		for _, sep := range []string{"\x00", "|", " "} {
+			if parts := strings.Split(c.Patterns[0], sep); len(parts) > 1 && len(parts) < 5 {
+				out = append(out, c12Case{Patterns: parts, Mode: c.Mode, Subject: c.Subject})
+			}
+		}
+	}
+	return out
+}
+
+// c12History checks c between its neighbours.
+func c12History(c c12Case) error {
+	nb := c12Neighbours(c)
+	for _, x := range nb {
+		if _, _, err := checkC12(x); err != nil {
+			return err
+		}
+	}
+	if _, _, err := checkC12(c); err != nil {
+		return fmt.Errorf("%v\n(directly after the calls %+v)", err, nb)
+	}
+	for _, x := range nb {
+		if _, _, err := checkC12(x); err != nil {
+			return fmt.Errorf("%v\n(directly after the call %+v)", err, c)
+		}
+	}
+	return nil
+}
+
+type c12Seq struct {
+	Calls []c12Case `json:"calls"`
+}
+
 func init() {
+	reg("C12", "history", func(h c12Seq) error {
+		for i, c := range h.Calls {
+			if _, _, err := checkC12(c); err != nil {
+				return fmt.Errorf("call %d of the history: %v", i+1, err)
+			}
+		}
+		return nil
+	})
 	reg("C12", "match", func(c c12Case) error {
 		_, _, err := checkC12(c)
 		return err
@@ -324,6 +376,9 @@ func TestC12(t *testing.T) {
 						if err != nil {
 							fail(t, "C12", "match", c, "%v", err)
 						}
+						if err := c12History(c); err != nil {
+							fail(t, "C12", "history", c12Seq{Calls: append(append(c12Neighbours(c), c), c12Neighbours(c)...)}, "%v", err)
+						}
 						if v == c12Checked && wild && s != "" {
 							nt++
 						}
@@ -334,6 +389,35 @@ func TestC12(t *testing.T) {
 			}
 		}
 		st.Note("exhaustive: patterns of <= 3 symbols over %q x subjects of <= 3 symbols over %q x 4 modes; all pairs of patterns of <= 2 symbols over {a b * ? [ ]} x subjects of <= 3 symbols over {a b | ]} x 4 modes", palpha, salpha)
+	}
+
+	// (a'') long patterns (regular expression engines limit repeat counts and program sizes)
+	if sh == 0 {
+		long := 0
+		for _, atom := range []string{"?", "a", "[ab]", "\\a", "é", "??", "[!b]"} {
+			for _, k := range []int{200, 1001, 1500} {
+				p := strings.Repeat(atom, k)
+				subj := strings.Repeat("a", k)
+				switch atom {
+				case "é":
+					subj = strings.Repeat("é", k)
+				case "??":
+					subj = strings.Repeat("a", 2*k)
+				}
+				for _, m := range c12Modes {
+					for _, sj := range []string{subj, subj + "b", "b" + subj, subj[:len(subj)/2]} {
+						c := c12Case{Patterns: []string{p}, Mode: m, Subject: sj}
+						if _, _, err := checkC12(c); err != nil {
+							fail(t, "C12", "match", c, "%v", err)
+						}
+						long++
+					}
+				}
+			}
+		}
+		st.EvalN(int64(long), int64(long))
+		st.ClassN("long_patterns", int64(long))
+		st.Note("%d cases with patterns of 200, 1001 and 1500 repeated atoms (?, a, [ab], \\a, é, ??, [!b])", long)
 	}
 
 	// (b) random longer patterns
@@ -347,6 +431,7 @@ func TestC12(t *testing.T) {
 		rapid.SampledFrom([]string{"*", "?", "*", "?"}),
 		rapid.SampledFrom([]string{".", "+", "(", ")", "|", "{", "}", "^", "$", "-", "!", "]", "#", "%", "~", "/", ",", ":", "=", "'", `"`}),
 		rapid.SampledFrom([]string{`\*`, `\?`, `\[`, `\]`, `\\`, `\.`, `\a`, `\é`, `\-`, `\(`, `\|`, `\$`, `\^`, `\+`, `\{`, "\\\uFFFD", "\\\U0001F600"}),
+		rapid.SampledFrom([]string{"{2}", "{1,}", "a{2}", "o{2,3}", "{,2}", "(?i)", "\\d", "\\pL", "a|b", "a+", "(a)", "^a", "a$", "\\Qa\\E", "[[:alpha:]]{2}"}),
 		rapid.Custom(func(t *rapid.T) string {
 			var b strings.Builder
 			b.WriteString("[")
@@ -392,6 +477,12 @@ func TestC12(t *testing.T) {
 		v, wild, err := checkC12(c)
 		if err != nil {
 			fail(rt, "C12", "match", c, "%v", err)
+		}
+		if nb := c12Neighbours(c); len(nb) > 0 {
+			if err := c12History(c); err != nil {
+				fail(rt, "C12", "history", c12Seq{Calls: append(append(nb, c), nb...)}, "%v", err)
+			}
+			st.Class("calls_between_colliding_neighbours")
 		}
 		st.Eval(v == c12Checked && wild && c.Subject != "", strings.Join(c.Patterns, "\x00"), fmt.Sprint(c.Mode), c.Subject)
 		switch v {
